@@ -54,7 +54,8 @@ RandomRel(c, e) ==
        /\ IsCancel(x) => ValidCancel(c, e, x)
        /\ IsNew(x) =>
             /\ x.tr \notin SeqSet(e.active_traders)                \* a slot with a live order cancels, it never adds
-            /\ ~x.mkt
+            \* (a limit sell at price 0 - possible when the tick range starts at 0 - carries the same price as a market sell)
+            /\ x.mkt => (x.side = "A" /\ c.tick_lo = 0)
             /\ OnGridBig(x.price, c.tick) /\ BigSmall(x.price)
             /\ BigVal(x.price) >= c.tick_lo * c.tick /\ BigVal(x.price) < c.tick_hi * c.tick
             /\ x.vol >= c.vol_lo /\ x.vol < c.vol_hi
